@@ -188,10 +188,16 @@ protected:
     //when try_lock fails, we need to register itself to waiting queue (_requests)
     bool subscribe(awaiter *aw) {
         //so subscribe to _requests
-        aw->subscribe(_requests);
-        //now check result of _next, which gives as hint, how lock operation ended
-        //if the _next is null, the lock was unlock
-        if (aw->_next== nullptr) [[likely]] {
+        //the value observed by the successful CAS is kept in a local variable: once the
+        //CAS succeeds the awaiter is visible to the owner, which can relink it (build_queue)
+        //and hand the mutex over before we continue, so aw->_next must not be read anymore
+        awaiter *prev = aw->_next;
+        while (!_requests.compare_exchange_weak(prev, aw, std::memory_order_release)) {
+            aw->_next = prev;
+        }
+        //now check the observed value, which gives as hint, how lock operation ended
+        //if it is null, the lock was unlock
+        if (prev == nullptr) [[likely]] {
             //because current awaiter will be destroyed, we need to replace self
             //with a doorman()
             //the function build_queue does this, even if there is no requests currentl
